@@ -114,6 +114,17 @@ def _line(case):
         okc, r = c.lib(name + "/contains", lambda: ln.contains(list(off), tol=TOL * S * max(1.0, float(np.linalg.norm(ww)))))
         if okc:
             c.true(name + "/contains/offline", not bool(r), "line contains a point 5%% of the scale away from it")
+        # 3xN array form: one boolean per column, equal to the single-point answers
+        ctol = TOL * S * max(1.0, float(np.linalg.norm(ww)))
+        cols = np.stack([p, off, p + wh * case["lam"], off + wh * case["lam"]], axis=1)
+        okc, r = c.lib(name + "/contains/matrix", lambda: ln.contains(cols.copy(), tol=ctol * max(1.0, abs(case["lam"]))))
+        if okc:
+            try:
+                got = [bool(b) for b in r]
+            except Exception:  # noqa
+                got = None
+            c.true(name + "/contains/matrix", got == [True, False, True, False],
+                   "contains(3x4 array of on/off/on/off-line points) gave %r" % (r,))
         # principal point: on the line, orthogonal to the direction, closest to the origin
         okpp, pp = c.lib(name + "/pp", lambda: ln.pp)
         if okpp:
@@ -196,6 +207,14 @@ def _line(case):
                       okl, Pl = c.lib(name + "/intersect_plane/point(lam)", ln.point, float(ip.lam))
                       if okl:
                           c.eq(name + "/intersect_plane/lam", np.asarray(Pl, dtype=float)[:, 0], want, TOL * 10, Si / abs(np.dot(refs.unit(nrm), wh)))
+    # a plane exactly parallel to the line (normal along a coordinate axis on which the direction has no component): no intersection
+    zero_axes = [j for j in range(3) if w[j] == 0.0]
+    if zero_axes and "PointDir" in lines:
+        e = np.zeros(3)
+        e[zero_axes[0]] = 1.0
+        okn, r = c.lib("PointDir/intersect_plane/parallel", lines["PointDir"].intersect_plane, [float(e[0]), float(e[1]), float(e[2]), 1.0 + float(abs(p[zero_axes[0]]))])
+        if okn:
+            c.true("PointDir/intersect_plane/parallel", r is None, "intersect_plane with an exactly parallel plane returned %r instead of None" % (r,))
     # plane through three points
     a, b_, cc = p, p + w, p + n1 * max(1.0, wn)
     okp, pl3 = c.lib("Plane.P3", L.Plane.P3, np.stack([a, b_, cc], axis=1))
